@@ -84,6 +84,13 @@ CHECKS = {
         technique="deterministic generation of adversarial designs compiled by the real compiler; strict reference elaboration of the emitted VHDL + seeded simulation with the sensitivity monitor",
         ref="6/C06",
     ),
+    "C12": dict(
+        level="exploration",
+        text="A seeded instantiation tree (depth <= 3, fan-out <= 3, shared templates, node logic combinational / registered / accumulating / slice-assembling / instantiating a leaf through a helper called inside a concurrent context, derived entity classes inheriting their ports) is rendered twice from the same tree: as a hierarchy of entities (actuals: whole signals, parent ports, slices, an instance output connected to a slice of a parent signal with a default) and inline in one architecture. Both are compiled by the real compiler and co-simulated in VSIM under the same stimulus with independent seeded process orders; all outputs must agree after every clock as raw std_logic values. Structural checks on the hierarchical text: emitted interface == declared ports (names, directions, types, order), every template emitted exactly once, sub-entities before their users.",
+        note="Trusted: VSIM, the two renderers of one tree. Trees that use a typed view of an Unsigned signal as actual are emitted as illegal VHDL (known C06 finding) and are not explored.",
+        technique="deterministic co-simulation of two replicas (hierarchical vs inline) of generated designs under identical stimulus and independent seeded process orders; replica agreement + structural checks",
+        ref="6/C12",
+    ),
 }
 
 NOT_APPLICABLE = {
